@@ -383,7 +383,7 @@ def class_consts(ctx) -> Dict[str, Any]:
     return out
 
 
-@rule("C05.R5", ["C05", "C04", "C01"], min_instances=2, design="3.5")
+@rule("C05.R5", ["C05", "C04", "C01", "C07"], min_instances=2, design="3.5")
 def abstract_key_round_trip(ctx):
     """Abstractly interpreting the decoder on the writer's symbolic rows returns every tag/field key (opaque user text) unchanged, in its own dictionary, without ever inspecting the user's text."""
     de = ctx.prog.func("Point._deserialize_from_list", "C05.R5")
@@ -445,6 +445,6 @@ def abstract_key_round_trip(ctx):
                     want_v = None if txt == sent else float(txt)
                     if v != want_v or (v is not None and not isinstance(v, (int, float))):
                         bad.append(f"{name}: field {k} decodes to {v!r}, written {txt!r}")
-        yield Ob("C05.R5", ["C05", "C04", "C01"], f"{de.qual} | abstract key round trip | {style} prefixes", not bad,
+        yield Ob("C05.R5", ["C05", "C04", "C01", "C07"], f"{de.qual} | abstract key round trip | {style} prefixes", not bad,
                  "; ".join(bad[:2]) if bad else f"{len(rows)} symbolic rows decode to exactly the written keys without "
                  f"inspecting user text", de.loc())
